@@ -116,6 +116,9 @@ class Renderer(object):
                 return []
             if op.get("de") is not None and not self.file_retracted:
                 parts.append(self._e_word(op["de"]))
+                if op.get("wipe"):
+                    self.file_retracted = True
+                    self.file_retract_len = -op["de"]
             if op.get("f") is not None:
                 parts.append("F" + fmt(op["f"] / U.unit, 3))
             return [" ".join(parts)]
